@@ -163,10 +163,11 @@ def run(ctx):
     to_model = [f"{r[0]}\t{r[2]}" for r in cases if r[1] != "FLT"]
     model = ctx.model("c10", to_model) if to_model and os.path.exists(vlib.MODEL) else {}
     rnd = random.Random(ctx.seed)
-    n = {k: 0 for k in ("LIT", "PAT", "OP", "FLT", "PARSE", "EVAL", "FMT", "TOSTR")}
+    n = {k: 0 for k in ("LIT", "NEG", "PAT", "OP", "FLT", "PARSE", "EVAL", "FMT", "TOSTR")}
     eq = dict(n)
     stats = {"lit_accept": 0, "lit_reject_out_of_range": 0, "lit_reject_annotation": 0, "op_value_checks": 0, "op_const_exprs": 0,
-             "flt_accept": 0, "flt_reject": 0, "flt_double_rounding_discriminating": 0, "flt_double_rounded": 0, "pat_accept": 0, "pat_reject": 0}
+             "flt_accept": 0, "flt_reject": 0, "flt_double_rounding_discriminating": 0, "flt_double_rounded": 0, "pat_accept": 0, "pat_reject": 0,
+             "neg_accept": 0, "neg_reject": 0, "neg_most_negative_value_not_writable": 0}
     distinct = set()
     samples_out = []
     model_diffs = 0
@@ -224,6 +225,44 @@ def run(ctx):
                                f"literal `{digits}{sfx}` is in the range of {ty} but is rejected", dict(payload, written=str(written), type=ty))
             else:
                 ctx.report({"oracle": "literal", "kind": "panic-or-unreadable"}, f"literal `{digits}{sfx}`: {impl[:80]}", payload)
+
+        # ---------------------------------------------------------------- NEG
+        elif kind == "NEG":
+            digits, sfx = args[0], ("" if args[1] == "-" else args[1])
+            ty = SUFFIX[sfx]
+            mag = int(digits)
+            distinct.add(("NEG", digits, sfx))
+            if impl == pred and pred:
+                eq[kind] += 1
+            else:
+                tie_fail(kind, r, pred)
+            if impl.startswith("accept "):
+                stats["neg_accept"] += 1
+                f = fields(impl)
+                bad = []
+                if not in_range(ty, mag): bad.append("out-of-range-literal-accepted")
+                if f.get("prim") != PRIM[ty] or f.get("val") != str(mag): bad.append("wrong-value-in-core")
+                if f.get("goty") != ty or f.get("declty") != ty or f.get("goop") != "Neg": bad.append("wrong-go-type-or-operator")
+                rhs = f.get("txt", "?:?").split(":", 1)[1]
+                for b in bad:
+                    ctx.report({"oracle": "literal", "kind": b, "form": "negated"}, f"`-{digits}{sfx}`: {b}", payload)
+                if not bad:
+                    # `-<lit>` is a Go constant expression: exact, then representable at the declared type
+                    want = src_bin("Neg", ty, mag, 0)
+                    got = ("int", go_read_int(rhs)) if go_read_int(rhs) is not None and in_range(ty, go_read_int(rhs)) else \
+                          ("go-compile-error", f"constant {rhs} overflows {ty}")
+                    if got != want:
+                        sig = {"oracle": "operator", "kind": "go-constant-expression-rejected-by-go-compiler", "why": "constant overflows type"} \
+                            if got[0] == "go-compile-error" else {"oracle": "literal", "kind": "negated-literal-denotes-another-number"}
+                        ctx.report(sig, f"`-{digits}{sfx}` means {want} but is emitted as `{rhs}` at {ty}: {got}", dict(payload, source_meaning=str(want), go_meaning=str(got)))
+            elif impl.startswith("reject "):
+                stats["neg_reject"] += 1
+                if in_range(ty, mag):
+                    ctx.report({"oracle": "literal", "kind": "in-range-literal-rejected", "form": "negated"}, f"`-{digits}{sfx}` rejected", payload)
+                elif in_range(ty, -mag):
+                    stats["neg_most_negative_value_not_writable"] += 1
+            else:
+                ctx.report({"oracle": "literal", "kind": "panic-or-unreadable", "form": "negated"}, f"`-{digits}{sfx}`: {impl[:80]}", payload)
 
         # ---------------------------------------------------------------- PAT
         elif kind == "PAT":
@@ -449,14 +488,15 @@ def run(ctx):
     total = sum(n.values())
     cov = {
         "evaluations": total, "distinct_nontrivial": len(distinct),
-        "rule": "one case = one program compiled by the real pipeline (LIT/PAT/OP/FLT), or one call of the Rust std function the compiler uses "
+        "rule": "one case = one program compiled by the real pipeline (LIT/NEG/PAT/OP/FLT), or one call of the Rust std function the compiler uses "
                 "(PARSE = str::parse::<iN/uN>, FMT = iN::to_string, EVAL = wrapping_* as a third opinion on the Lean operator semantics), or one runtime "
                 "helper (TOSTR). distinct_nontrivial counts distinct LIT inputs with a value > 9, distinct PAT and FLT inputs, distinct (operator,type,"
-                "operand shape) triples and helpers; PARSE/FMT/EVAL are not counted",
+                "operand shape) triples, NEG inputs and helpers; PARSE/FMT/EVAL are not counted",
         "streams": n, "model_equal": eq, "model_diffs": model_diffs, "impl_oracle_failures": len(ctx.violations),
         "stats": stats, "samples": samples_out,
         "input_distribution": "LIT: every value 0..300 at i8 and u8, ±2 around every boundary of all 8 integer types in every suffix form and unsuffixed, "
-                              "with matching and foreign annotations, leading zeros, seeded random 64-bit and wider values; OP: 10 arithmetic/comparison "
+                              "with matching and foreign annotations, leading zeros, seeded random 64-bit and wider values; NEG: negated literals around the "
+                              "negative end of every type; PAT: literal patterns (suffixed, foreign suffix, unsuffixed) at every scrutinee type; OP: 10 arithmetic/comparison "
                               "operators + neg × 8 integer types × operand shapes var/var, var/lit, lit/var, lit/lit (incl. overflowing and zero-divisor "
                               "literal pairs), bool and float operators; each integer OP case is evaluated on all 256×256 operand pairs (8-bit) or "
                               "boundary+random pairs against the source meaning; FLT: decimals, f32 rounding midpoints ± 10^-k, range ends, subnormals",
